@@ -114,7 +114,7 @@ def build(spec, channels):
     n_g = rng.standard_normal((n, 3))
     n_a = rng.standard_normal((n, 3))
     n_m = rng.standard_normal((n, 3))
-    gyr = W + float(nz.get('gyr', 0.0)) * n_g
+    gyr = W + float(nz.get('gyr', 0.0)) * n_g + np.array(spec.get('gyr_bias', [0.0, 0.0, 0.0]), dtype=float)
     floor = float(spec.get('gyr_floor', 0.0))
     if floor > 0:
         # never exactly zero: several filters freeze on an all-zero gyro sample
@@ -264,6 +264,15 @@ def gen_world(rnd, n_ticks, *, allow_kicks=True, allow_poses=False, max_rate=10.
         elif r < 0.85 or not (allow_kicks or allow_poses):
             mag = 10 ** rnd.uniform(-2, math.log10(max_rate))
             u = rand_unit(rnd)
+            shape = rnd.random()
+            if shape < 0.12:            # turn about one body axis: two rate components are exactly zero
+                i = rnd.randrange(3)
+                u = [math.copysign(1.0, u[i]) if j == i else 0.0 for j in range(3)]
+            elif shape < 0.2:           # planar: one component exactly zero
+                i = rnd.randrange(3)
+                u = [0.0 if j == i else u[j] for j in range(3)]
+                nrm = math.sqrt(sum(x * x for x in u)) or 1.0
+                u = [x / nrm for x in u]
             segs.append({'t': 'rate', 'len': ln, 'w': [mag * x for x in u]})
         elif allow_poses and rnd.random() < 0.5:
             name, q = rnd.choice(canonical_poses())
@@ -286,6 +295,8 @@ def gen_world(rnd, n_ticks, *, allow_kicks=True, allow_poses=False, max_rate=10.
     if noise and rnd.random() < 0.7:
         nz = {'acc': 10 ** rnd.uniform(-5, -1.5), 'mag': 10 ** rnd.uniform(-5, -1.5),
               'gyr': 10 ** rnd.uniform(-5, -2)}
+        if rnd.random() < 0.1:
+            nz['gyr'] = 10 ** rnd.uniform(-13, -8)      # a resting sensor with a vanishing but non-zero rate output
     spec = {'dt': dt, 'q0': rand_unit(rnd, 4), 'segments': segs, 'g': g, 'mscale': ms,
             'dip': rnd.choice([-80.0, -60.0, -30.0, 0.0, 25.0, 45.0, 60.0, 66.0, 80.0, rnd.uniform(-80, 80)]),
             'noise': nz, 'noise_seed': rnd.randrange(1 << 30), 'gyr_floor': gyr_floor, 'faults': []}
